@@ -535,7 +535,7 @@ func RStepDecode(c *core.Ctx) {
 // ---------------------------------------------------------------------------
 
 func RUnitCmp(c *core.Ctx) {
-	c.Rule("R-UNITCMP", "within a function of packages regexp2 / compat no value derived from a byte-offset source (Capture.ByteRange, captureIndex, stringByteMapper.byteIndex; through +, -, phi) is compared with a value derived from a rune-index field (Capture.RuneIndex, Capture.RuneLength, Match.textpos)", 3)
+	c.Rule("R-UNITCMP", "within a function of packages regexp2 / compat no value derived from a byte-offset source (Capture.ByteRange, captureIndex, stringByteMapper.byteIndex; through +, -, phi) is compared with, added to or subtracted from a value derived from a rune-index field (Capture.RuneIndex, Capture.RuneLength, Match.textpos)", 3)
 	p := c.P
 	byteFns := map[*ssa.Function]bool{}
 	for _, n := range [][2]string{{"", "Capture.ByteRange"}, {"compat", "captureIndex"}, {"", "stringByteMapper.byteIndex"}} {
@@ -624,14 +624,15 @@ func RUnitCmp(c *core.Ctx) {
 					continue
 				}
 				switch bin.Op {
-				case token.EQL, token.NEQ, token.LSS, token.LEQ, token.GTR, token.GEQ:
+				case token.EQL, token.NEQ, token.LSS, token.LEQ, token.GTR, token.GEQ, token.ADD, token.SUB:
+					// comparing the two units is wrong, and so is adding a rune count to a byte offset
 					if kind[bin.X] != 0 && kind[bin.Y] != 0 && kind[bin.X] != kind[bin.Y] {
 						bad, what = bin.Pos(), bin.String()
 					}
 				}
 			}
 		}
-		c.Check(bad == token.NoPos, name+" / byte offsets and rune indexes are not compared", fn.Pos(), "%s at %s compares a byte offset with a rune index: equal only while every rune before the position is one byte wide", what, p.Pos(bad))
+		c.Check(bad == token.NoPos, name+" / byte offsets and rune indexes are not compared", fn.Pos(), "%s at %s combines a byte offset with a rune index / rune count: right only while every rune involved is one byte wide", what, p.Pos(bad))
 	}
 	if nFn == 0 {
 		c.Anchor("functions that obtain byte offsets (ByteRange / captureIndex / byteIndex)")
